@@ -297,5 +297,7 @@ contract(
 
 contract("skgenome/gary.py::GenomicArray.by_chromosome", params=dict(self=CNA()),
          yields=TupT(CHROM, CNA(index="any")), trusted=True, requires=[], ensures=[], props=(), domain="skip",
+         ghost=dict(result_is_field=("self", "groups")),
          notes="per-chromosome sub-arrays (pandas groupby): assumed to yield some sequence of (name, array) pairs; "
-               "what they contain is the bounded contracts' business (C15 center_all#rt)")
+               "what they contain is the bounded contracts' business (C15 center_all#rt).  A caller's contract may model "
+               "the sequence as a ghost field `groups` of the receiver (then the call returns that field)")
